@@ -15,10 +15,14 @@ use std::sync::{Arc, Mutex};
 struct T {
     trace: Arc<Mutex<Vec<String>>>,
     name: String,
+    aliases: Vec<String>,
 }
 impl Command for T {
     fn name(&self) -> String {
         self.name.clone()
+    }
+    fn aliases(&self) -> Vec<String> {
+        self.aliases.clone()
     }
     fn clone_and_box(&self) -> Box<dyn Command> {
         Box::new(self.clone())
@@ -75,7 +79,9 @@ pub fn gen(r: &mut Rng) -> Value {
         };
         let val = match r.below(8) { 0 => "-", 1 => "0", 2 => "7", 3 => "x", 4 => "${v0}", 5 => "-3", 6 => "\\${v0}", _ => "CRASHME" };
         let target = if kind == "gotol" { json!(r.pick(&[":a", ":b", ":c", ":zz"])) } else { json!(r.below(n + 2).to_string()) };
-        lines.push(json!({"label": label, "out": out, "kind": kind, "val": val, "target": target}));
+        // some lines spell the command with a word that is both the name of one command and (registered
+        // later) an alias of another: the alias table is consulted first
+        lines.push(json!({"label": label, "out": out, "kind": kind, "val": val, "target": target, "via_alias": r.chance(1, 5)}));
     }
     json!({"lines": lines, "on_error": r.below(3), "fuel": 40})
 }
@@ -110,7 +116,7 @@ pub fn run(input: &Value) -> Option<Value> {
         match l["kind"].as_str()? {
             "nocmd" => {}
             "unknown" => s.push_str("nosuchcommand a"),
-            k => s.push_str(&format!("t {} {} {}", k, l["val"].as_str()?, l["target"].as_str()?)),
+            k => s.push_str(&format!("{} {} {} {}", if l["via_alias"].as_bool().unwrap_or(false) { "shadow" } else { "t" }, k, l["val"].as_str()?, l["target"].as_str()?)),
         }
         text.push(s);
     }
@@ -160,7 +166,7 @@ pub fn run(input: &Value) -> Option<Value> {
         let raw_val = l["val"].as_str()?;
         let val_arg = expand(raw_val, &vars);
         let target = l["target"].as_str()?.to_string();
-        trace.push(format!("t@{}({}|{}|{})->{:?}", line, kind, val_arg, target, out));
+        trace.push(format!("{}@{}({}|{}|{})->{:?}", if l["via_alias"].as_bool().unwrap_or(false) { "real" } else { "t" }, line, kind, val_arg, target, out));
         let val = if val_arg == "-" { None } else { Some(val_arg.clone()) };
         match kind {
             "cont" | "halt" => {
@@ -221,9 +227,11 @@ pub fn run(input: &Value) -> Option<Value> {
     // ---- real run ----
     let tr = Arc::new(Mutex::new(vec![]));
     let mut context = Context::new();
-    context.commands.set(Box::new(T { trace: tr.clone(), name: "t".to_string() })).ok()?;
+    context.commands.set(Box::new(T { trace: tr.clone(), name: "t".to_string(), aliases: vec![] })).ok()?;
+    context.commands.set(Box::new(T { trace: tr.clone(), name: "shadow".to_string(), aliases: vec![] })).ok()?;
+    context.commands.set(Box::new(T { trace: tr.clone(), name: "real".to_string(), aliases: vec!["shadow".to_string()] })).ok()?;
     if on_error > 0 {
-        context.commands.set(Box::new(T { trace: tr.clone(), name: "on_error".to_string() })).ok()?;
+        context.commands.set(Box::new(T { trace: tr.clone(), name: "on_error".to_string(), aliases: vec![] })).ok()?;
     }
     let halt = Arc::new(AtomicBool::new(false));
     let env = Env::new(None, None, Some(halt));
